@@ -31,8 +31,9 @@ TB_PT = ("Trusted: TLC 1.8 + CommunityModules; PageTables.tla as the statement o
          "documentation and the property text) and its entry bit layout; the harness's simulated physical memory (memfd arena, "
          "snapshot/diff, SIGSEGV recovery) and raw logging. Histories are explored exhaustively only inside the small universes of "
          "MC_PT_*.cfg (design level); conformance of the real crate is established on seeded random histories over the large universe "
-         "(testing, not proof). RecursivePageTable is not yet driven (needs the software MMU); upper-half physical-memory offsets "
-         "cannot be dereferenced in a user process.")
+         "(testing, not proof). All three mapper kinds are driven; RecursivePageTable through a software MMU (SIGSEGV handler that walks the "
+         "simulated tables from the emulated CR3) for recursive indices < 256; upper-half physical-memory offsets and recursive indices "
+         ">= 256 cannot be dereferenced in a user process.")
 
 CLAIMS.update({
     "C01": dict(ref="§5 C01", tech="TLA+ state machine of the page-table hierarchy + hardware walk (PageTables.tla) model-checked exhaustively with TLC over small universes (invariant WalkIsHistory, ParentRights); TLC trace validation (Trace_PT.tla) of recorded call histories of the real MappedPageTable/OffsetPageTable with raw-memory comparison after every call",
@@ -65,6 +66,10 @@ CLAIMS.update({
                 text="All 65536 ports x 3 widths x {Port read/write, PortReadOnly read, PortWriteOnly write} in debug and release builds: TLC checks per access exactly one instruction, of the type's width (opcode/prefix), DX = port, AL/AX/EAX = value written, returned value = value the emulated device supplied; repeated and discarded reads are separate accesses; equality/clone/clone_from follow the port number.",
                 note=TB_CPU + " 'Without touching memory' is not observed (ordinary memory accesses do not trap)."),
 })
+
+CLAIMS["C20"] = dict(ref="§5 C20", tech="TLA+ spec of recursive table addresses (Addr.tla RecP3/RecP2/RecP1, lemma L_Rec checked by TLC at scaled widths) and of the constructor's acceptance condition (Trace_PT.tla RptNewStep); MC_PT with a recursive slot; TLC trace validation of RecursivePageTable::new, of the software-MMU access log of the real recursive mapper, and of the computed table pages (hook H3)",
+    text="TLC checks for all scaled (page, index) pairs that the recursive addresses have indices (R,R,R,p4)/(R,R,p4,p3)/(R,p4,p3,p2), are canonical and page-aligned, and explores the page-table state machine with a recursive slot; on the real crate: new() over recursive and near-recursive table addresses x root-register contents x slot contents must answer Ok/NotRecursive/NotActive exactly as specified and use the common index; every recursive-region page the mapper touches during random histories must be one the property names for that call and reach the frame the specification's hardware walk reaches; the computed table pages are compared for all 512 indices x lattice pages x 3 sizes.",
+    note=TB_PT)
 
 NA_DEFAULT = "check under construction in this session (planned in DESIGN.md section 5); not yet claimed"
 
